@@ -23,8 +23,20 @@ func c11ExitStatus(ctx *core.Ctx, cc *CC) {
 		if fn.Pkg == nil || fn.Pkg.Pkg.Name() != "main" {
 			continue
 		}
+		isTarget := func(h *ssa.Function) bool {
+			return h != nil && (QName(h) == "compiler.Compile" || strings.HasSuffix(QName(h), "(*Auditor).Audit"))
+		}
 		for _, c := range ssax.Calls(fn) {
-			if c.Static == nil || !(QName(c.Static) == "compiler.Compile" || strings.HasSuffix(QName(c.Static), "(*Auditor).Audit")) {
+			// the call itself, or a helper of package main that makes it and hands the error back
+			viaHelper := false
+			if c.Static != nil && c.Static.Pkg == fn.Pkg && c.Static != fn && c.Static.Signature.Results().Len() == 1 && isErrorType(c.Static.Signature.Results().At(0).Type()) {
+				for _, c2 := range ssax.Calls(c.Static) {
+					if isTarget(c2.Static) {
+						viaHelper = true
+					}
+				}
+			}
+			if !isTarget(c.Static) && !viaHelper {
 				continue
 			}
 			call, ok := c.Instr.(*ssa.Call)
@@ -40,6 +52,22 @@ func c11ExitStatus(ctx *core.Ctx, cc *CC) {
 			isExit := func(x ssa.Instruction) bool {
 				if cc2, ok := ssax.AsCall(x); ok && cc2.FullName() == "os.Exit" {
 					if k, isK := ssax.ConstInt(cc2.Args()[0]); isK && k != 0 {
+						return true
+					}
+				}
+				// a helper of package main that never comes back: every path through it
+				// reaches os.Exit(≠0) (exitFailed(file, cause))
+				if cc2, ok := ssax.AsCall(x); ok && cc2.Static != nil && cc2.Static.Pkg == fn.Pkg && len(cc2.Static.Blocks) > 0 && cc2.Static != fn {
+					h := cc2.Static
+					exits := func(y ssa.Instruction) bool {
+						if c3, ok := ssax.AsCall(y); ok && c3.FullName() == "os.Exit" {
+							if k, isK := ssax.ConstInt(c3.Args()[0]); isK && k != 0 {
+								return true
+							}
+						}
+						return false
+					}
+					if len(ssax.CallsTo(h, "os.Exit")) > 0 && ssax.PathFrom(h, nil, ssax.IsReturn, exits) == nil {
 						return true
 					}
 				}
